@@ -21,6 +21,8 @@ pub struct SyncSys {
     pub batches: bool,
     /// commits containing operations that are invalid where they stand
     pub messy: bool,
+    /// updates that change a property record the NEW value as their old value (a stale caller)
+    pub stale_old: bool,
     /// start from a world in which T1{p=base} exists on every replica and is synced
     pub populated: bool,
     /// only the first `active` replicas act (the others stay brand-new until something syncs them)
@@ -51,6 +53,7 @@ impl SyncSys {
             deletes: true,
             batches: false,
             messy: false,
+            stale_old: false,
             populated: false,
             active: r,
             c01: true,
@@ -240,6 +243,11 @@ impl Sys for SyncSys {
                         out.push(Act::Recreate { r, t });
                     }
                     for (p, v, ts) in &self.updates {
+                        let stored = obs.tasks.get(&crate::world::replicas::tid(t)).and_then(|m| m.get(p));
+                        if self.stale_old && stored != v.as_ref() {
+                            out.push(Act::UpdateStale { r, t, p: p.clone(), v: v.clone(), ts: *ts });
+                            continue;
+                        }
                         out.push(Act::Update {
                             r,
                             t,
